@@ -42,6 +42,16 @@ class T(object):
         return self.kind == "def" and isinstance(self.node, (ast.FunctionDef, ast.AsyncFunctionDef))
 
 
+_MIRROR = {ast.Eq: ast.Eq, ast.NotEq: ast.NotEq, ast.Lt: ast.Gt, ast.LtE: ast.GtE, ast.Gt: ast.Lt, ast.GtE: ast.LtE}
+
+
+def _is_version_const(e):
+    """An int constant or a tuple of constants: the constant side of a version test."""
+    if isinstance(e, ast.Tuple):
+        return bool(e.elts) and all(isinstance(x, ast.Constant) for x in e.elts)
+    return isinstance(e, ast.Constant) and isinstance(e.value, int)
+
+
 def fold_version(test):
     """True/False for tests on sys.version_info that are decided under
     Python 3, None otherwise."""
@@ -61,6 +71,12 @@ def fold_version(test):
                 val = False
     elif isinstance(t, ast.Compare) and len(t.ops) == 1:
         left, op, right = t.left, t.ops[0], t.comparators[0]
+        if _is_version_const(left) and not _is_version_const(right):
+            # `2 == sys.version_info.major`, `(3,) <= sys.version_info`: same test, mirrored spelling
+            mirrored = _MIRROR.get(type(op))
+            if mirrored is None:
+                return None
+            left, op, right = right, mirrored(), left
         ls = A.src(left)
         if ls in ("sys.version_info.major", "sys.version_info[0]") and isinstance(right, ast.Constant) \
                 and isinstance(right.value, int):
